@@ -14,9 +14,10 @@ package rfc8628
 //@ spec func dev_unchanged() bool = dev_live == old(dev_live) && dev_used == old(dev_used) && dev_req == old(dev_req) && dev_rid == old(dev_rid) && dev_client == old(dev_client)
 
 //@ interface DeviceAuthStorage.CreateDeviceAuthSession
-//@   modifies dev_live, dev_used, dev_req, dev_rid, dev_client, stored, faults, tx_escaped
+//@   modifies dev_ever, dev_live, dev_used, dev_req, dev_rid, dev_client, stored, faults, tx_escaped
 //@   ensures tx_escaped == old(tx_escaped) + escapes(ctx, err)
 //@   ensures err == nil ==> dev_live == upd(upd(old(dev_live), deviceCodeSignature, true), userCodeSignature, true) && dev_req == upd(upd(old(dev_req), deviceCodeSignature, request), userCodeSignature, request) && dev_rid == upd(upd(old(dev_rid), deviceCodeSignature, request.GetID()), userCodeSignature, request.GetID()) && dev_client == upd(upd(old(dev_client), deviceCodeSignature, request.GetClient().GetID()), userCodeSignature, request.GetClient().GetID()) && stored == upd(old(stored), request, true) && faults == old(faults)
+//@   ensures (err == nil ==> dev_ever == upd(old(dev_ever), deviceCodeSignature, true)) && (err != nil ==> dev_ever == old(dev_ever))
 //@   ensures err != nil && eis(err, fosite.ErrExistingUserCodeSignature) ==> dev_unchanged() && stored == old(stored) && faults == old(faults)
 //@   ensures err != nil && !eis(err, fosite.ErrExistingUserCodeSignature) ==> dev_unchanged() && stored == old(stored) && faults == old(faults) + 1
 
@@ -162,9 +163,13 @@ package rfc8628
 //@   let sig  = devsig(c.DeviceCodeStrategy, code)
 //@   let txl  = implements(c.CoreStorage, storage.Transactional)
 //@   requires c != nil && requester != nil && responder != nil && !stored[requester]
-//@   modifies dev_live, dev_used, code_active, acc_exists, acc_rid, acc_client, acc_req, ref_exists, ref_active, ref_rid, ref_client, ref_acc, ref_req, stored, faults, tx_open, tx_begun, tx_committed, tx_rolledback, tx_commit_calls, tx_rollback_calls, snap_code_active, snap_acc_exists, snap_ref_exists, snap_ref_active, snap_dev_live, validated_n, tx_escaped, tx_ctx
+//@   modifies dev_live, dev_used, code_active, acc_exists, acc_rid, acc_client, acc_req, ref_exists, ref_active, ref_rid, ref_client, ref_acc, ref_req, ref_ever, stored, faults, tx_open, tx_begun, tx_committed, tx_rolledback, tx_commit_calls, tx_rollback_calls, snap_code_active, snap_acc_exists, snap_ref_exists, snap_ref_active, snap_dev_live, validated_n, tx_escaped, tx_ctx
 //@   ensures [C18.writes-inside-tx] old(tx_open) == 0 ==> tx_escaped == old(tx_escaped)
 //@   ensures [C16.once] err == nil ==> old(dev_live[sig]) && !dev_live[sig]
+//@   ensures [C16.populate-touches-only-its-grant] requester.GetID() == old(requester.GetID()) && (forall s string :: code_active[s] ==> old(code_active[s])) && (forall d string :: dev_live[d] ==> old(dev_live[d]))
+//@   ensures [C16.populate-touches-only-its-grant] forall s string :: acc_exists[s] ==> acc_rid[s] == requester.GetID() || (old(acc_exists[s]) && acc_rid[s] == old(acc_rid[s]))
+//@   ensures [C16.populate-touches-only-its-grant] forall s string :: ref_exists[s] && ref_active[s] ==> ref_rid[s] == requester.GetID() || (old(ref_exists[s]) && old(ref_active[s]) && ref_rid[s] == old(ref_rid[s]))
+//@   ensures [C04.never-reactivates-a-used-token] (forall s string :: old(ref_ever[s]) ==> ref_ever[s]) && (forall s string :: old(ref_ever[s]) && !old(ref_exists[s] && ref_active[s]) ==> !(ref_exists[s] && ref_active[s]))
 //@   ensures [C16.tokens-only-if-accepted] err == nil ==> old(dev_req[sig]) != nil && old(dev_req[sig]).GetUserCodeState() != fosite.UserCodeUnused && old(dev_req[sig]).GetUserCodeState() != fosite.UserCodeRejected
 //@   ensures [C06.lookup-then-validate] err == nil ==> validated_n[code] > old(validated_n[code])
 //@   ensures [C16.issued-with-request-id] err == nil ==> (forall s string :: acc_exists[s] && !old(acc_exists[s]) ==> acc_rid[s] == requester.GetID()) && (forall s string :: ref_exists[s] && !old(ref_exists[s]) ==> ref_rid[s] == requester.GetID())
@@ -185,14 +190,46 @@ package rfc8628
 //@ spec func usersig(strategy UserCodeStrategy, code string) string
 //@ interface DeviceCodeStrategy.GenerateDeviceCode
 //@   ensures err == nil ==> signature == devsig(recv, code)
+// cryptographic assumption (A12): the signature of a newly generated device code has never been stored, and a user-code
+// signature is never a device-code signature
+//@   ensures err == nil ==> !dev_ever[signature]
 //@ interface UserCodeStrategy.GenerateUserCode
 //@   ensures err == nil ==> signature == usersig(recv, code)
+//@   ensures err == nil ==> !dev_ever[signature]
 
 //@ func (*DeviceAuthHandler).handleDeviceAuthSession
 //@   modifies anyheap
 //@   requires d != nil && dar != nil
-//@   modifies dev_live, dev_used, dev_req, dev_rid, dev_client, stored, faults, tx_escaped
+//@   modifies dev_ever, dev_live, dev_used, dev_req, dev_rid, dev_client, stored, faults, tx_escaped
+//@   ensures [C16.new-codes-touch-nothing-else] dar.GetID() == old(dar.GetID())
+//@   ensures [C16.new-codes-touch-nothing-else] forall d string :: old(dev_ever[d]) ==> dev_ever[d] && (dev_live[d] ==> old(dev_live[d]))
+//@   ensures [C16.new-codes-touch-nothing-else] forall d string :: dev_live[d] ==> dev_rid[d] == dar.GetID() || (old(dev_live[d]) && dev_rid[d] == old(dev_rid[d]))
 //@   assert @call(CreateDeviceAuthSession)#1 [C16.codes-stored-as-signatures] deviceCodeSignature == devsig(d.Strategy, deviceCode) && userCodeSignature == usersig(d.Strategy, userCode)
 //@   ensures [C16.device-auth-stores] result2 == nil ==> dev_live[devsig(d.Strategy, result0)] && dev_live[usersig(d.Strategy, result1)]
 //@   ensures [C16.fault-refuses] faults != old(faults) ==> result2 != nil
+//@   invariant loop#1 [C16.new-codes-touch-nothing-else] dev_ever == old(dev_ever) && dev_rid == old(dev_rid) && dev_live == old(dev_live) && !dev_ever[deviceCodeSignature] && dar.GetID() == old(dar.GetID())
 //@   invariant loop#1 [C16.device-auth-stores] i >= 0 && (i > 0 ==> err != nil && faults == old(faults) && dev_live == old(dev_live)) && (i == 0 ==> faults == old(faults) && dev_live == old(dev_live)) && deviceCodeSignature == devsig(d.Strategy, deviceCode)
+
+// ---------------------------------------------------------------- history lemmas (ghost driver in verif_history.go)
+// The same invariants as in package oauth2 (dead, rid_unique, deadrid are defined there), proved stable under the device-flow
+// operations: together the two drivers cover every operation that changes the token, code and device tables.
+//@ interface verifEnv.Request
+//@   ensures result != nil && !stored[result] && !shared[result] && !shared[result.GetSession()] && result.GetClient() != nil && result.GetSession() != nil
+//@ interface verifEnv.Response
+//@   ensures result != nil
+//@ interface verifEnv.DeviceRequest
+//@   ensures result != nil && result.GetSession() != nil && result.GetClient() != nil
+//@   ensures (forall s string :: code_exists[s] ==> result.GetID() != code_rid[s]) && result.GetID() != grant_id(recv)
+//@ interface verifEnv.More
+//@ interface verifEnv.Kind
+//@ interface verifEnv.Grant
+//@ func verifHistoryDeviceFlow
+//@   let rid0 = grant_id(env)
+//@   requires env != nil && poll != nil && auth != nil
+//@   modifies everything
+//@   invariant loop#1 [C01.dead-grant-stays-dead] old(dead(sig0) && rid_unique(sig0)) ==> dead(sig0) && rid_unique(sig0)
+//@   invariant loop#1 [C01.used-code-stays-used] old(code_exists[sig0] && !code_active[sig0]) ==> code_exists[sig0] && !code_active[sig0]
+//@   invariant loop#1 [C04.dead-family-stays-dead] old(deadrid(rid0)) ==> deadrid(rid0)
+//@   invariant loop#1 [C08.revoked-grant-stays-revoked] old(deadrid(rid0)) ==> deadrid(rid0)
+//@   invariant loop#1 [C04.used-refresh-token-stays-used] old(ref_ever[sig0] && !(ref_exists[sig0] && ref_active[sig0])) ==> ref_ever[sig0] && !(ref_exists[sig0] && ref_active[sig0])
+//@   invariant loop#1 [C16.used-device-code-stays-used] old(dev_ever[sig0] && !dev_live[sig0]) ==> dev_ever[sig0] && !dev_live[sig0]
